@@ -45,7 +45,64 @@ def make_tree(case):
     return ['q', kind, sp, case['op'], n, m, greedy]
 
 
+def check_collision(case, ctx):
+    """Repeatability is a property of the *value*, not of what was built earlier: for an operand X with emitted text t,
+    the escaped literal Pregex(t) (the same characters, now plain text) is always repeatable while X keeps its own
+    verdict, in whichever order the two are built and quantified."""
+    from pregex.core.pre import Pregex
+    x = case['op']
+    try:
+        m = dsl.model(x)
+    except (dsl.Unspec, dsl.Expect):
+        ctx.case(case, False)
+        return
+    except Exception:  # noqa: BLE001
+        ctx.case(case, False)
+        return
+    kind, sp, n, mm, greedy = case['q']
+    lo, hi = dsl.canon_bounds('exactly' if sp in ('mul', 'rmul') else kind, n, mm)
+    repeating = hi is None or hi > 1
+
+    def quantify(p):
+        try:
+            dsl.REFS[:] = [p]
+            dsl.build(['q', kind, sp if sp != 'class' else 'method', ['ref', 0], n, mm, greedy])
+            return None
+        except Exception as e:  # noqa: BLE001
+            return type(e).__name__
+        finally:
+            dsl.REFS[:] = []
+    order = case.get('order', 0)
+    px = dsl.build(x)
+    t = str(px)
+    if t == '':
+        ctx.case(case, False)
+        return
+    results = {}
+    for who in (('lit', 'x', 'lit') if order == 0 else ('x', 'lit', 'x')):
+        p = Pregex(t) if who == 'lit' else dsl.build(x)
+        results.setdefault(who, []).append(quantify(p))
+    for r in results['lit']:
+        if r == 'CannotBeRepeatedException':
+            v = Violation('undocumented_use', case, f'the plain literal Pregex({t!r}) was refused repetition ({dsl.QMETHOD[kind]}) '
+                          f'{"after" if order else "before"} {dsl.render(x)} (same text, unescaped) was built in the same process')
+            if not findings.classify(ID, v.kind, case):
+                raise v
+    want = 'CannotBeRepeatedException' if (repeating and m.direct_assert and not m.empty) else None
+    if not (repeating and m.has_assert and not m.direct_assert):
+        for r in results['x']:
+            if (r == 'CannotBeRepeatedException') != (want is not None):
+                v = Violation('missing_exception' if want else 'undocumented_use', case, f'{dsl.render(x)} quantified by {dsl.QMETHOD[kind]}: {r}, '
+                              f'expected {want}; the literal Pregex({t!r}) was built in the same process')
+                if not findings.classify(ID, v.kind, case):
+                    raise v
+    ctx.count('collision_cases')
+    ctx.case(case, True, sample={'operand': dsl.render(x), 'same_text_literal': t[:60], 'order': order})
+
+
 def check_case(case, ctx):
+    if case.get('mode') == 'collision':
+        return check_collision(case, ctx)
     tree = make_tree(case)
     o = treecheck.evaluate(tree, case.get('tseed', 0))
     ctx.count(f'outcome:{o.kind}')
@@ -79,6 +136,16 @@ def _fix_q(t):
 
 def strategy(spec, ctx):
     mode = spec['mode']
+    if mode == 'collision':
+        lit = st.one_of(dsl.literal_strategy(dsl.ALL_FEATURES, 1, 8), st.lists(dsl.char_strategy(dsl.ALL_FEATURES), min_size=30, max_size=50).map(''.join),
+                        st.lists(st.sampled_from(list('abc xyz.$^')), min_size=30, max_size=45).map(''.join))
+        leaf = st.tuples(lit, st.booleans()).map(lambda t: ['lit', t[0], t[1]])
+        anchors = st.tuples(st.sampled_from(['start', 'end', 'lstart', 'lend']), st.sampled_from(['class', 'method']), leaf).map(
+            lambda t: ['anchor', t[0], t[1], t[2]])
+        looks = st.tuples(st.sampled_from(['fb', 'pb', 'eb', 'nfb', 'npb']), st.sampled_from(['class', 'method']), leaf, leaf).map(
+            lambda t: ['look', t[0], t[1], t[2], [t[3]]])
+        return st.fixed_dictionaries({'mode': st.just('collision'), 'op': st.one_of(anchors, anchors, looks, leaf),
+                                      'q': quant_strategy().map(list), 'order': st.integers(0, 1)})
     if mode == 'literal':
         op = st.tuples(dsl.literal_strategy(dsl.ALL_FEATURES, 1, 8), st.booleans()).map(lambda t: ['lit', t[0], t[1]])
     elif mode == 'assertion_free':
@@ -113,8 +180,8 @@ def shards(tier):
     parts = 4 if quick else 16
     for part in range(parts):
         out.append({'mode': 'enumerate', 'maxlen': 2 if quick else 3, 'part': part, 'parts': parts})
-    for mode in ('literal', 'assertion_free', 'direct'):
-        for _ in range(4 if quick else 12):
+    for mode in ('literal', 'assertion_free', 'direct', 'collision'):
+        for _ in range(3 if quick else 12):
             out.append({'mode': mode, 'examples': 1200 if quick else 8000})
     return out
 
